@@ -23,6 +23,8 @@ CONSTANTS
   Outer <- %(outer)s
   Inner <- %(inner)s
   Escapes <- MCEscapes
+  Encoded <- MCEncoded
+  Decoded <- MCDecoded
   Prop = "%(prop)s"
   SliceMod = %(mod)d
   SliceSeed = %(seed)d
